@@ -29,6 +29,10 @@ Check(e) ==
            ELSE {})
      \cup (IF \A a \in (DOMAIN hold) \ MayTouch(e.ev, e, hold) : a \in DOMAIN h2 /\ Untouched(hold[a], h2[a])
            THEN {} ELSE {"OnlySignersAssetsReduced_" \o e.ev})
+     \* a refund may be collected for a payer by anyone - but it is the payer's: a caller other than the payer ends the
+     \* message with the balance it had (the payer's entitlement is not turned into the caller's coins)
+     \cup (IF e.ev = "WithdrawFeeRefund" /\ e.ok /\ e.who # e.payer /\ e.who \in DOMAIN hold /\ e.who \in DOMAIN h2 /\ hold[e.who].bal \prec h2[e.who].bal
+           THEN {"RefundGoesToThePayerNotTheCaller"} ELSE {})
 
 Step ==
   /\ l <= Len(Trace)
